@@ -318,6 +318,10 @@ def execute_wrapper(mod, w, summaries=None, inputs=None, prefix='x', init_tables
         p.iout = []
         for i in range(w.n_iout):
             p.iout.append(read_slot(ex, s, riout, i * 8, ('int', 64)))
+        for v in p.out + p.iout:
+            if isinstance(v, T) and any(a.startswith('__garbage') for a in tm.free_args(v)):
+                p.ub.append(('result depends on uninitialised memory', tm.show(v, 3)))
+                break
         # the input region must be unchanged (frame condition for every wrapper)
         for i, t in enumerate(ins):
             c = s.regions[rin].cells.get(i * isz)
